@@ -56,6 +56,29 @@ def split_writelines(tree):
             setattr(node, f, out)
 
 
+def split_chained_assign(tree):
+    """t1 = n = E   ->   n = E; t1 = n      (n a plain name that the other targets do not mention)"""
+    for node in ast.walk(tree):
+        for f in ("body", "orelse", "finalbody"):
+            v = getattr(node, f, None)
+            if not (isinstance(v, list) and v and isinstance(v[0], ast.stmt)):
+                continue
+            out = []
+            for s in v:
+                if isinstance(s, ast.Assign) and len(s.targets) > 1:
+                    names = [t for t in s.targets if isinstance(t, ast.Name)]
+                    carrier = next((t for t in names if not any(isinstance(x, ast.Name) and x.id == t.id for o in s.targets if o is not t for x in ast.walk(o))
+                                    and not any(isinstance(x, ast.Name) and x.id == t.id for x in ast.walk(s.value))), None)
+                    if carrier is not None:
+                        out.append(ast.fix_missing_locations(ast.copy_location(ast.Assign(targets=[carrier], value=s.value), s)))
+                        for o in s.targets:
+                            if o is not carrier:
+                                out.append(ast.fix_missing_locations(ast.copy_location(ast.Assign(targets=[o], value=ast.Name(id=carrier.id, ctx=ast.Load())), s)))
+                        continue
+                out.append(s)
+            setattr(node, f, out)
+
+
 def drop_noops(tree):
     for node in ast.walk(tree):
         for f in ("body", "orelse", "finalbody"):
@@ -1928,6 +1951,7 @@ def normalize_package(trees, known=None, passes=None):
     on = lambda k: passes is None or str(k) in passes
     for mn, t in trees.items():
         drop_noops(t)
+        split_chained_assign(t)
         if mn in ("codegen",) or mn.endswith(".codegen"):
             split_writelines(t)
         if on(2):
